@@ -2463,7 +2463,9 @@ class Interp:
         qual = qualname_of(fn)
         con = self.reg.contracts.get(qual)
         if con is not None and qual != self.top_target and not getattr(con, 'inline', False) and not self.in_spec_inline(con):
-            return self.apply_contract(con, fn, args, kwargs, bound_cls)
+            ap = getattr(con, 'applies', None)
+            if ap is None or ap(args):
+                return self.apply_contract(con, fn, args, kwargs, bound_cls)
         path = fn.__code__.co_filename
         if not (path.startswith(self.reg.repo_root) or path.startswith(self.reg.verif_root)):
             raise Unsupported(f'call into external code {qual}')
